@@ -89,7 +89,7 @@ fn main() {
         ctx.rule(
             "files: every sequence of <= B blocks over the payload-size alphabet, with and without EOF marker, built by the harness's block maker and de-duplicated by content; \
              histories: every sequence of enabled reader operations (read x6 sizes, read_exact x5, fill_buf, consume x3 bounded by the last fill_buf, seek to every reportable form of every byte boundary, seek by uncompressed offset through both gzi variants) up to the depth, per file x reader kind; \
-             distinct = distinct observation logs (E1) / distinct canonical keys (E2); writer: every write/flush sequence x payload class x level with every sampled position sought in a fresh reader",
+             distinct = distinct observation logs (E1) / distinct canonical keys (E2); writer: every sequence of write/flush/try_finish/get_ref letters (try_finish at any position: the writer stays in use, giving EOF markers in mid-stream) x payload class x level, with every sampled position resolved against the walker's member table and sought in a fresh reader, a shared reader and, by uncompressed offset, through both gzi variants in Reader and IndexedReader",
         );
         ctx.assume("miniz_oxide deflate/inflate and crc32fast (block maker and walker) are correct; they are independent of zlib-rs used by noodles");
         ctx.assume("std::io::Cursor behaves as specified");
@@ -203,14 +203,23 @@ fn main() {
         ctx.add_distinct(all.iter().map(|f| f.uoffs.len() as u64 * f.gzi.len() as u64).sum(), 0);
 
         // writer side
-        let alpha = [W(1), F, W(65495), W(65496), W(0), W(255), W(130991)];
+        // writer side: write / flush / try_finish / get_ref at any position of the history
+        let alpha = [W(1), F, T, W(65495), W(65496), W(0), W(255), W(130991), G];
+        // longer histories over the letters that decide the member structure
+        let core = [W(1), F, T, W(65496), G];
         if quick {
             ctx.harness(Config::new("writer_tell_d3", 0), |ch| {
                 writer::body(ch, &alpha, 3, &[Payload::Text, Payload::Random], &[6, 0])
             });
+            ctx.harness(Config::new("writer_members_d5", 0), |ch| {
+                writer::body(ch, &core, 5, &[Payload::Text], &[6])
+            });
         } else {
             ctx.harness(Config::new("writer_tell_d4", 0), |ch| {
                 writer::body(ch, &alpha, 4, &[Payload::Text, Payload::Random, Payload::Zeros], &[6, 0, 1, 9])
+            });
+            ctx.harness(Config::new("writer_members_d6", 0), |ch| {
+                writer::body(ch, &core, 6, &[Payload::Text, Payload::Random], &[6, 0])
             });
         }
     });
